@@ -626,18 +626,83 @@ func TestSenderFaults(t *testing.T) {
 
 // ---------- graphite / statsdaemon against loopback listeners; stdout and null ----------
 
+func seqInts(n int) []int {
+	out := make([]int, n)
+	for i := range out {
+		out[i] = i
+	}
+	return out
+}
+
 func TestSocketBackends(t *testing.T) {
 	rapid.Check(t, func(t *rapid.T) {
 		variant := rapid.SampledFrom([]string{"graphite/tags", "graphite/legacy", "statsdaemon/tcp", "statsdaemon/udp", "stdout", "null"}).Draw(t, "variant")
-		mode := rapid.SampledFrom([]string{"accept", "close-listener-then-send", "cancel-request", "cancelled-before-call"}).Draw(t, "mode")
+		mode := rapid.SampledFrom([]string{"accept", "close-listener-then-send", "cancel-request", "cancelled-before-call", "outage-many-requests"}).Draw(t, "mode")
 		kit, err := bk.New(variantByName(variant), bk.Options{})
 		if err != nil {
 			t.Fatalf("%v", err)
 		}
 		defer kit.Close()
 		flushes := rapid.IntRange(1, 3).Draw(t, "flushes")
-		if mode == "close-listener-then-send" && kit.Loop != nil {
+		if (mode == "close-listener-then-send" || mode == "outage-many-requests") && kit.Loop != nil {
 			kit.Loop.Close()
+		}
+		if mode == "outage-many-requests" {
+			// the server is away and more flush requests are outstanding than the backend's sender queues (one flush of a
+			// server with that many aggregators); then the requests are cancelled one by one. Each is answered exactly once.
+			k := rapid.IntRange(11, 18).Draw(t, "outstanding")
+			type req struct {
+				cancel context.CancelFunc
+				calls  int32
+				cb     chan []error
+				ret    chan interface{}
+			}
+			reqs := make([]*req, k)
+			for i := range reqs {
+				ctx, cancel := context.WithCancel(context.Background())
+				r := &req{cancel: cancel, cb: make(chan []error, 4), ret: make(chan interface{}, 1)}
+				reqs[i] = r
+				go func() {
+					defer func() { r.ret <- recover() }()
+					kit.Backend.SendMetricsAsync(ctx, testMap(3), func(errs []error) {
+						atomic.AddInt32(&r.calls, 1)
+						r.cb <- errs
+					})
+				}()
+				time.Sleep(200 * time.Microsecond) // issued one after the other, as a flusher does
+			}
+			time.Sleep(time.Duration(rapid.IntRange(0, 10).Draw(t, "cancel-after-ms")) * time.Millisecond)
+			// all requests are cancelled, in a drawn order within a few hundred microseconds (the flusher hands every request
+			// the same context, so in use they end together). Not asserted: that a request cancelled *before* the ones queued
+			// ahead of it is answered while those are still outstanding - the sender looks at one request at a time, so on the
+			// unchanged tree such a request waits for its turn; no caller cancels out of order.
+			order := rapid.Permutation(seqInts(k)).Draw(t, "cancel-order")
+			for _, i := range order {
+				reqs[i].cancel()
+			}
+			for i, r := range reqs {
+				select {
+				case <-r.cb:
+				case <-time.After(30 * time.Second):
+					vt.Fail(t, "C16:no-callback:"+variant, "%s: request %d of %d outstanding during an outage was cancelled and got no completion callback within 30s", variant, i, k)
+				}
+				select {
+				case p := <-r.ret:
+					if p != nil {
+						vt.Fail(t, "C16:panic:"+variant, "%s mode %s: SendMetricsAsync panicked: %v", variant, mode, p)
+					}
+				case <-time.After(30 * time.Second):
+					vt.Fail(t, "C16:no-callback:"+variant, "%s mode %s: SendMetricsAsync of request %d did not return", variant, mode, i)
+				}
+			}
+			time.Sleep(2 * time.Millisecond)
+			for i, r := range reqs {
+				if n := atomic.LoadInt32(&r.calls); n != 1 {
+					vt.Fail(t, "C16:callback-count:"+variant, "%s mode %s: callback of request %d invoked %d times", variant, mode, i, n)
+				}
+			}
+			ev.C().Case(fmt.Sprintf("K|%s|%s|%d", variant, mode, k), kit.Loop != nil, "socket", "variant="+variant, "mode="+mode)
+			return
 		}
 		for f := 0; f < flushes; f++ {
 			ctx, cancel := context.WithCancel(context.Background())
